@@ -1505,7 +1505,8 @@ def reused_buffer_stream(rep, rng, n):
         draw = lambda: np.array([[rng.uniform(lo - 0.5, hi + 0.5) for lo, hi in ranges] for _ in range(rows)], dtype=dt)
         buf = draw()
         first = np.array(a.index_of(buf), copy=True)
-        a.index_of_single(buf[0])
+        if k % 2:
+            a.index_of_single(buf[0])
         buf[...] = draw()                       # refill in place: same array object, new contents
         again = np.array(a.index_of(buf), copy=True)
         fresh = np.array(a.index_of(np.array(buf, copy=True)), copy=True)
